@@ -139,7 +139,8 @@ class Gen:
                 a, b = b, a
             if self.is_const(a) and self.is_const(b):
                 a = self.sig_leaf()
-            if self.is_const(a) and a[0] not in ("int", "var"):
+            if self.is_const(a) and (a[0] not in ("int", "var") or (
+                    a[0] == "var" and self.decls[a[1]][0] == "int" and self.decls[a[1]][2][0] != "int")):
                 # compound constant on the left of a signal: known finding S14 (typed as an implicit
                 # signal instead of being absorbed); exercised by its fixed witness
                 a = self.int_leaf()
@@ -267,10 +268,43 @@ def program_safe(decls):
     return True
 
 
+def s14_free(decls):
+    """outside the region of known finding S14: no binary operation whose left operand is a compound
+    all-integer constant expression (or an int variable initialised by one) and whose right operand is a signal"""
+    kinds = [d[0] for d in decls]
+
+    def is_int(e):
+        k = e[0]
+        if k == "int":
+            return True
+        if k == "var":
+            return kinds[e[1]] == "int"
+        if k == "lit":
+            return False
+        return all(is_int(x) for x in e[1:] if isinstance(x, tuple))
+
+    def simple(e):
+        if e[0] == "int":
+            return True
+        if e[0] == "var":
+            d = decls[e[1]]
+            return d[0] == "int" and isinstance(d[2], tuple) and d[2][0] == "int"
+        return False
+
+    def ok(e):
+        if not isinstance(e, tuple):
+            return True
+        if e[0] == "bin" and is_int(e[2]) and not is_int(e[3]) and not simple(e[2]):
+            return False
+        return all(ok(x) for x in e[1:])
+
+    return all(ok(d[2]) for d in decls if d[0] != "in")
+
+
 def gen_program(seed, **kw):
     for k in range(50):
         g = Gen(random.Random(seed * 50 + k if k else seed), **kw)
         p = g.program()
-        if program_safe(p):
+        if program_safe(p) and s14_free(p):
             return p
     return p
